@@ -831,7 +831,7 @@ func (vfs *MemFS) Rename(oldpath, newpath string) error {
 			return &os.LinkError{Op: op, Old: oldpath, New: newpath, Err: vfs.err.InvalidArgument}
 		}
 
-	case *fileNode:
+	case *fileNode, *symlinkNode:
 		if nChild == nil {
 			break
 		}
